@@ -56,4 +56,9 @@ Dry-runs on scratch copies (VERIF_REPO) with findings_inbox/C26.jsonl loaded; ev
  r1 (after the fix phase) FlakyPasses reverted to `Success() != nil && len(Executions) > 1`   -> exit 1: C26_facts_ok, flaky_strict, C26_partition* no longer check
                                                                (19/21) and the oracle reports 51 failing inputs of class flaky-count-includes-clean-reruns
                                                                (printed as a VIOLATION with its input once that class is marked fixed in known_findings.json)
+ s1 (independently seeded) Add indexes cases in a map keyed by ClassName + "." + Name                 -> exit 1: facts readable (addMatchKind = "concat", sep "."): C26_facts_ok
+                                                               broken (22/23), 20 disagreements, failing input `flake 2 com.acme.Parser|v2.roundtrip:F ; com.acme.Parser.v2|roundtrip:P`
+                                                               (property: 2 tests, 1 failed, target fails; real: 1 test, 1 flake, target passes) - classes flake-merge-mismatch, summary-mismatch.
+                                                               Generators now contain a family of colliding (class, name) pairs (re-splits of a dotted string, same name in
+                                                               different classes, same class with different names) in the Add sequences, the XML documents and the plz test part.
 """
